@@ -9,10 +9,10 @@ from __future__ import annotations
 
 import itertools
 
-from core.guards import FALSE, TRUE, Formula, atom, atoms_of, evaluate, f_and, f_not, f_or
+from core.guards import TRUE, Formula, atom, atoms_of, evaluate, f_and, f_not, f_or
 from core.loader import AnalysisError
 
-from .c16_sym import NONE_T, Term, is_term, show, subterms
+from .c16_sym import NONE_T, Term, show, subterms
 
 LEN_TOP = 3  # 0, 1, 2, ">= 3"
 MATERIALISING = ("list", "tuple", "sorted", "set", "frozenset")
